@@ -30,7 +30,7 @@ RULE = (
     "Non-trivial = at least one pre-emptive context switch landed; distinct = distinct sequence of (task, code location) at context switches."
 )
 ASSUMPTIONS = ["races inside a single Python line, inside http.client or inside C code are out of reach (one thread runs at a time, switches happen between lines)"]
-REQUIRED_PROBES = {"quick": ["preempted", "blocked_in_get", "close_raced", "closed_pool_error", "retry_concurrent", "all_completed", "pct_schedule", "systematic_single_preemption"], "thorough": ["preempted", "blocked_in_get", "close_raced", "closed_pool_error", "retry_concurrent", "all_completed", "pct_schedule"]}
+REQUIRED_PROBES = {"quick": ["preempted", "blocked_in_get", "close_raced", "closed_pool_error", "retry_concurrent", "redirect_concurrent", "all_completed", "pct_schedule", "systematic_single_preemption"], "thorough": ["preempted", "blocked_in_get", "close_raced", "closed_pool_error", "retry_concurrent", "redirect_concurrent", "all_completed", "pct_schedule"]}
 
 
 def warmup():
@@ -73,7 +73,10 @@ def gen(rng):
         t["ops"].insert(rng.randrange(len(t["ops"]) + 1), {"op": "close"})
     sc = {"property": ID, "config": cfg, "tasks": tasks, "exchanges": [], "schedule": gen_schedule(rng)}
     if rng.random() < 0.3:
-        sc["exchanges"] = [rng.choice([{"k": "rst"}, {"k": "eof"}, {"k": "resp", "status": 200, "keepalive": False}])]
+        sc["exchanges"] = [rng.choice([{"k": "rst"}, {"k": "eof"}, {"k": "resp", "status": 200, "keepalive": False},
+                                       # a body-less redirect back to the same resource: the pool drains it, releases the connection and asks again
+                                       {"k": "resp", "status": rng.choice([302, 307]), "headers": [["Location", "{target}"]], "body": ""},
+                                       {"k": "resp", "status": 303, "headers": [["Location", "{target}"]], "body": "see other"}])]
     return sc
 
 
@@ -255,6 +258,8 @@ def run(sc: dict) -> Result:
             res.probes["close_raced"] += 1
         if len([q for q in w.requests]) > sum(1 for t in sc["tasks"] for o in t["ops"] if o["op"] == "request"):
             res.probes["retry_concurrent"] += 1
+        if any((ex.get("status") or 0) in (302, 303, 307) for ex in sc.get("exchanges") or []) and len(w.requests) > 1:
+            res.probes["redirect_concurrent"] += 1
         if sc["schedule"].get("strategy") == "pct":
             res.probes["pct_schedule"] += 1
         if len(sc["schedule"].get("decisions") or []) == 1 and sched.preemptions:
